@@ -4,6 +4,8 @@
 //   F <id> <type> <n> <cost> <depth>   parallel_for<type>(n) at nesting depth 0..2 (inside 3-wide int loops)
 //   B <id> <type> <n> <B>              parallel_in_blocks_of<B,type>(n)
 //   E <id> <count> <a> <b>             parallel_foreach over vector<long>(count) [begin+a, end-b)
+//   H <id> <step> <step> ...          a HISTORY of loops in this process; steps (see do_H): ordinary loops that must be
+//                                      complete, loops whose body throws (caller catches), nested loops with a failing inner loop
 //   M <id> <distance>                  parallel_foreach over <distance> unsigned chars of an untouched NORESERVE mapping
 //   T <id> <n> <prefill> <park>        (internal backend only) recorded ITaskSet(n) added through the enkiTS
 //                                      API with <prefill> trivial sets already in the caller's pipe and, if
@@ -18,6 +20,8 @@
 #include <cstdlib>
 #include <cstring>
 #include <string>
+#include <sstream>
+#include <stdexcept>
 #include <thread>
 #include <vector>
 #include <algorithm>
@@ -282,6 +286,171 @@ static void do_E(const char *id, long count, long a, long b)
   fflush(stdout);
 }
 
+// ------------------------------------------------------------------ H: histories of loops
+// An exception may leave a loop body only where that is defined: tbb::parallel_for propagates it to the caller and the
+// Debug backend is a plain serial loop.  An exception escaping an OpenMP structured block or an enkiTS worker is
+// terminate()/undefined, so there the failing body handles its own exception ("s" semantics).
+#if defined(RKCOMMON_TASKING_TBB) || (!defined(RKCOMMON_TASKING_OMP) && !defined(RKCOMMON_TASKING_INTERNAL))
+#define C01_PROPAGATES 1
+#else
+#define C01_PROPAGATES 0
+#endif
+struct LoopFailure : std::runtime_error { LoopFailure() : std::runtime_error("cannot process this item") {} };
+
+static std::string sum_check(const FCase &c, Inst &in, long long want_cnt)
+{
+  long long cnt = 0; for (auto &s : g_slots) cnt += s.cnt;
+  if (in.nbad == 0 && cnt == want_cnt) return "ok";
+  char b[160]; snprintf(b, sizeof b, "BAD(calls=%lld,wrong_indices=%lld,first_wrong=%lld,n=%llu)", cnt, in.nbad, in.bad_first, c.npos);
+  return b;
+}
+// ordinary loop: every index exactly once, visible right after return
+template <typename I> static std::string h_plain(u64 npos, I n)
+{
+  FCase c{npos, 0, false}; Inst in; in.seen.assign(npos + 1, 0); in.who.assign(npos + 1, 0);
+  reset_slots();
+  bool threw = false;
+  try { Armed a; run_inst<I>(c, in, n); } catch (...) { threw = true; }
+  if (threw) return "BAD(unexpected-exception,calls=" + std::to_string([&] { long long k = 0; for (auto &s : g_slots) k += s.cnt; return k; }()) + ")";
+  return sum_check(c, in, (long long)npos);
+}
+// loop whose body fails at index bad.  propagate: the exception leaves the body (caller catches);
+// otherwise the body handles it itself.  Required: propagate -> the caller sees the exception, no index twice, bad was
+// run; handled -> the loop is complete.
+template <typename I> static std::string h_failing(u64 npos, I n, u64 bad, bool propagate)
+{
+  FCase c{npos, 0, false}; Inst in; in.seen.assign(npos + 1, 0); in.who.assign(npos + 1, 0);
+  reset_slots();
+  bool threw = false;
+  try {
+    Armed a;
+    parallel_for(n, [&](I i) {
+      body<I>(c, in, i);
+      if ((u64)i == bad) {
+        if (propagate) throw LoopFailure();
+        try { throw LoopFailure(); } catch (const LoopFailure &) {}
+      }
+    });
+  } catch (const LoopFailure &) { threw = true; }
+  if (!propagate || bad >= npos) { post_check(c, in); return threw ? "BAD(unexpected-exception)" : sum_check(c, in, (long long)npos); }
+  u64 twice = 0; for (u64 k = 0; k < npos; ++k) twice += in.seen[k] > 1;
+  if (!threw) return "BAD(exception-lost)";
+  if (twice || in.seen[bad] != 1) return "BAD(index-twice-or-failing-index-not-run)";
+  return "caught";
+}
+// outer loop of n0 items; every item runs an inner loop of n1; in item bad0 the inner body fails at bad1 and the item
+// catches (propagating backends) or the inner body handles it.  Required: every outer item once, every inner loop of
+// the other items complete, and the failing item's inner loop ran no index twice.
+static std::string h_nested(int n0, int n1, int bad0, int bad1)
+{
+  std::vector<std::vector<unsigned char>> seen(n0, std::vector<unsigned char>(n1 + 1, 0));
+  std::vector<unsigned char> outer(n0 + 1, 0), caught(n0 + 1, 0), complete(n0 + 1, 0);
+  bool threw = false;
+  try {
+    Armed a;
+    parallel_for(n0, [&](int o) {
+      try {
+        parallel_for(n1, [&](int j) {
+          if (o < 0 || o >= n0 || j < 0 || j >= n1) fatal_line(4, "EXTRA", "nested index out of range");
+          seen[o][j]++;
+          if (o == bad0 && j == bad1) {
+            if (C01_PROPAGATES) throw LoopFailure();
+            try { throw LoopFailure(); } catch (const LoopFailure &) {}
+          }
+        });
+      } catch (const LoopFailure &) { caught[o] = 1; }
+      // right after the inner loop returned, inside the item
+      bool all = true; for (int j = 0; j < n1; ++j) all = all && seen[o][j] == 1;
+      complete[o] = all;
+      outer[o]++;
+    });
+  } catch (...) { threw = true; }
+  if (threw) return "BAD(exception-escaped-the-outer-loop)";
+  for (int o = 0; o < n0; ++o) {
+    if (outer[o] != 1) return "BAD(outer-item-" + std::to_string(o) + "-ran-" + std::to_string((int)outer[o]) + "-times)";
+    bool failing = C01_PROPAGATES && o == bad0 && bad1 >= 0 && bad1 < n1;
+    if (!failing && (!complete[o] || caught[o])) return "BAD(inner-loop-of-item-" + std::to_string(o) + "-incomplete)";
+    if (failing) {
+      if (!caught[o]) return "BAD(inner-exception-lost)";
+      for (int j = 0; j < n1; ++j) if (seen[o][j] > 1) return "BAD(inner-index-twice)";
+    }
+  }
+  return "ok";
+}
+static std::string h_foreach(long count, long bad)   // bad < 0: ordinary
+{
+  std::vector<long> v; v.reserve(count + 1); v.assign(count, 7);
+  bool threw = false; bool prop = C01_PROPAGATES && bad >= 0 && bad < count;
+  try {
+    Armed a;
+    parallel_foreach(v, [&](long &x) {
+      long k = &x - v.data();
+      x += 1;
+      if (k == bad) { if (C01_PROPAGATES) throw LoopFailure(); try { throw LoopFailure(); } catch (const LoopFailure &) {} }
+    });
+  } catch (const LoopFailure &) { threw = true; }
+  long wrong = 0; for (long k = 0; k < count; ++k) wrong += prop ? (v[k] > 8) : (v[k] != 8);
+  if (prop) return !threw ? "BAD(exception-lost)" : wrong ? "BAD(element-twice)" : "caught";
+  return threw ? "BAD(unexpected-exception)" : wrong ? "BAD(wrong_elements=" + std::to_string(wrong) + ")" : "ok";
+}
+template <int BS> static std::string h_blocks(int n, int badblock)   // badblock < 0: ordinary
+{
+  std::vector<unsigned char> cover(n > 0 ? n : 0, 0);
+  int nb = n > 0 ? (n + BS - 1) / BS : 0;
+  bool threw = false; bool prop = C01_PROPAGATES && badblock >= 0 && badblock < nb;
+  try {
+    Armed a;
+    parallel_in_blocks_of<BS>(n, [&](int b, int e) {
+      if (b < 0 || e > n || b >= e || e - b > BS) fatal_line(4, "EXTRA", "history: malformed block");
+      for (int k = b; k < e; ++k) cover[k]++;
+      if (b / BS == badblock) { if (C01_PROPAGATES) throw LoopFailure(); try { throw LoopFailure(); } catch (const LoopFailure &) {} }
+    });
+  } catch (const LoopFailure &) { threw = true; }
+  long wrong = 0; for (int k = 0; k < n; ++k) wrong += prop ? (cover[k] > 1) : (cover[k] != 1);
+  if (prop) return !threw ? "BAD(exception-lost)" : wrong ? "BAD(index-twice)" : "caught";
+  return threw ? "BAD(unexpected-exception)" : wrong ? "BAD(uncovered_or_twice=" + std::to_string(wrong) + ")" : "ok";
+}
+template <typename I> static std::string h_loop(const std::vector<std::string> &f, bool is_signed, bool failing, bool propagate)
+{
+  I n; u64 npos;
+  if (is_signed) { i64 v = strtoll(f[2].c_str(), 0, 10); n = (I)v; npos = v > 0 ? (u64)v : 0; }
+  else { u64 v = strtoull(f[2].c_str(), 0, 10); n = (I)v; npos = v; }
+  if (!failing) return h_plain<I>(npos, n);
+  return h_failing<I>(npos, n, strtoull(f[3].c_str(), 0, 10), propagate);
+}
+// steps:  f:<ty>:<n>            ordinary parallel_for<ty>(n)                       -> ok
+//         x:<ty>:<n>:<bad>      body throws at bad, caller catches (TBB, Debug)    -> caught
+//         s:<ty>:<n>:<bad>      body throws and handles it itself at bad           -> ok
+//         n:<n0>:<n1>:<b0>:<b1> nested, inner loop of item b0 fails at b1          -> ok
+//         e:<count>  xe:<count>:<bad>   parallel_foreach, ordinary / failing      -> ok / caught (ok if handled in the body)
+//         b:<n>:<B>  xb:<n>:<B>:<blk>   parallel_in_blocks_of<B>(int n), B in {4,64}
+static void do_H(const char *id, const std::vector<std::string> &steps)
+{
+  std::string out = id;
+  for (size_t k = 0; k < steps.size(); ++k) {
+    std::vector<std::string> f; { std::stringstream ss(steps[k]); std::string t; while (std::getline(ss, t, ':')) f.push_back(t); }
+    std::string r = "BAD(step-syntax)";
+    const std::string &op = f[0];
+    if ((op == "f" && f.size() == 3) || ((op == "x" || op == "s") && f.size() == 4)) {
+      bool failing = op != "f", prop = op == "x" && C01_PROPAGATES;
+      const std::string &ty = f[1];
+      if (ty == "i") r = h_loop<int>(f, true, failing, prop);
+      else if (ty == "sz") r = h_loop<size_t>(f, false, failing, prop);
+      else if (ty == "uc") r = h_loop<unsigned char>(f, false, failing, prop);
+      else if (ty == "l") r = h_loop<long>(f, true, failing, prop);
+    } else if (op == "n" && f.size() == 5) r = h_nested(atoi(f[1].c_str()), atoi(f[2].c_str()), atoi(f[3].c_str()), atoi(f[4].c_str()));
+    else if (op == "e" && f.size() == 2) r = h_foreach(atol(f[1].c_str()), -1);
+    else if (op == "xe" && f.size() == 3) r = h_foreach(atol(f[1].c_str()), atol(f[2].c_str()));
+    else if ((op == "b" && f.size() == 3) || (op == "xb" && f.size() == 4)) {
+      int n = atoi(f[1].c_str()), B = atoi(f[2].c_str()), blk = op == "xb" ? atoi(f[3].c_str()) : -1;
+      r = B == 4 ? h_blocks<4>(n, blk) : h_blocks<64>(n, blk);
+    }
+    out += " " + std::to_string(k) + "=" + r;
+  }
+  printf("%s\n", out.c_str());
+  fflush(stdout);
+}
+
 // ------------------------------------------------------------------ M: parallel_foreach over a huge sparse range
 // d elements of unsigned char in a MAP_NORESERVE mapping; the body only takes the element's address (no page is
 // touched) except for the last 64 elements, which it writes: a distance above INT_MAX costs no memory.
@@ -372,8 +541,15 @@ int main(int argc, char **argv)
   if (argc > 2) g_wd_ms = atoll(argv[2]);
   std::thread(watchdog_main).detach();
   initTaskingSystem(T);
-  char line[512];
+  static char line[8192];
   while (fgets(line, sizeof line, stdin)) {
+    if (line[0] == 'H' && line[1] == ' ') {
+      std::stringstream ss(line); std::string t, hid; std::vector<std::string> steps;
+      ss >> t >> hid; while (ss >> t) steps.push_back(t);
+      snprintf(g_case, sizeof g_case, "%s", hid.c_str());
+      do_H(hid.c_str(), steps);
+      continue;
+    }
     char kind[8], id[64], a[64], b[64], c[64], d[64];
     a[0] = b[0] = c[0] = d[0] = 0;
     int k = sscanf(line, "%7s %63s %63s %63s %63s %63s", kind, id, a, b, c, d);
